@@ -91,6 +91,15 @@ def wide_grammars(heavy=False):
         alts.append('%s A %s' % (c, 'uvw'[i % 3])); alts.append('%s %s B !' % (c, c)); alts.append('%s #' % c)
     g = simple('S->' + ' | '.join(alts) + '\nA->S ; | ;\nB->B , S | S'); g.note = 'core:many-rules'
     if heavy: out.append(g)      # 616 states: minutes of compile time, thorough tier only
+    # (6) item address space (rules + 1) * (longest rule + 1) * (terms + 2) beyond 65535: one rule of 127 symbols over 62 terms; the items of
+    #     the augmented rule have the largest indices. Built at run time with user limits (the default caps would make an 80 MB object).
+    terms = [Term('c', c) for c in WIDE_CHARS[:62]]
+    rules = [Rule(0, [('t', k % 61) for k in range(127)]), Rule(0, [('t', 61), ('n', 1)]), Rule(1, [('t', 3), ('n', 1)]), Rule(1, [('n', 2), ('t', 5)]), Rule(2, []),
+             Rule(2, [('t', 7), ('n', 3)]), Rule(3, [('t', 9)]), Rule(3, [('t', 11), ('n', 0), ('t', 13)])]
+    g = Grammar(['Start', 'Xx', 'Yy', 'Zz'], terms, rules, 0, note='core:item-address-space-beyond-16-bits')
+    tb = ref_lr1.build(g)
+    g.limits = (len(tb.states) + 3, max(len(st) for st in tb.states) + 3); g.rt = True
+    out.append(g)
     return out
 
 def core_grammars(wide=False, heavy=False):
